@@ -518,3 +518,125 @@ Example C10_ll2_ilu0_examples :
   | Done (EOk st) => idd st | _ => [] end = [Some (qc 1 2); None] /\
   ll_ilu0 (flat_of (mkCrs 3 [[(0, q10 2)]; [(0, q10 1)]; [(1, q10 1); (2, q10 1)]])) = UninitRead.
 Proof. repeat split; vm_compute; reflexivity. Qed.
+
+(* ================================================================== A2'': small aggregates and the QR of the near-null space
+   (coq/SmallAggr.v, SmallAggrProofs.v, SmallAggrRProofs.v).  With nullspace.cols > 0 tentative_prolongation() copies
+   qr.R(ii,jj), ii, jj < cols, out of a d x cols column-major block (d = unknowns of the block aggregate); for d < cols the
+   read of R(cols-1, cols-1) is behind the block.  The only guard is pointwise_aggregates::remove_small_aggregates, called
+   with min_aggregate = nullspace.cols. *)
+From Coq Require Import ZArith.
+From Amgcl Require Import TentativeQrGuard SmallAggr SmallAggrRProofs SmallAggrProofs.
+Local Open Scope nat_scope.
+
+(* remove_small_aggregates at array level (checked reads / writes of aggr.id and of the scratch vector count, the throw of
+   empty_level) never leaves its arrays on valid aggregate ids and computes the list-level Aggregates.remove_small *)
+Theorem C10_smallaggr_remove_small_memory_safe (n bs mina count : nat) (idl : list Z) :
+  length idl = n -> valid_ids count idl ->
+  ll_remove_small RsCoded n bs mina count (filled idl) = Done (remove_small_out bs mina count idl).
+Proof. exact (ll_remove_small_ok n bs mina count idl). Qed.
+Print Assumptions C10_smallaggr_remove_small_memory_safe.
+
+(* what it guarantees (min_aggregate > 1): removed points stay removed, the points of an aggregate with
+   block_size * count < min_aggregate get the removed id, all the others get an id below the new count; two remaining points
+   share the new id iff they shared the old one (the partition is preserved); the new ids have no gaps and every remaining
+   aggregate has block_size * count >= min_aggregate *)
+Theorem C10_smallaggr_remove_small_spec (bs mina count : nat) (id : list Z) :
+  valid_ids count id -> 1 < mina ->
+  let r := remove_small bs mina count id in
+  let small (a : Z) := Nat.ltb (bs * occ id a) mina in
+  length (snd r) = length id /\
+  valid_ids (fst r) (snd r) /\
+  (forall k, k < length id -> zget id k = removed -> zget (snd r) k = removed) /\
+  (forall k, k < length id -> zget id k <> removed -> small (zget id k) = true -> zget (snd r) k = removed) /\
+  (forall k, k < length id -> zget id k <> removed -> small (zget id k) = false ->
+     (0 <= zget (snd r) k < Z.of_nat (fst r))%Z) /\
+  (forall k1 k2, k1 < length id -> k2 < length id -> (0 <= zget (snd r) k1)%Z -> (0 <= zget (snd r) k2)%Z ->
+     (zget (snd r) k1 = zget (snd r) k2 <-> zget id k1 = zget id k2)) /\
+  (forall m', m' < fst r -> 1 <= occ (snd r) (Z.of_nat m') /\ mina <= bs * occ (snd r) (Z.of_nat m')).
+Proof. exact (remove_small_spec bs mina count id). Qed.
+Print Assumptions C10_smallaggr_remove_small_spec.
+
+(* block aggregate i of the expanded ids has block_size * (number of its nodes) rows *)
+Theorem C10_smallaggr_block_rows (bs : nat) (pwid : list Z) (i : nat) : 1 <= bs ->
+  length (members bs (expand_ids bs pwid) i) = bs * occ pwid (Z.of_nat i).
+Proof. exact (members_expand_length bs pwid i). Qed.
+Print Assumptions C10_smallaggr_block_rows.
+
+(* the guard: with min_aggregate = nullspace.cols every QR block has at least cols rows (non-empty aggregates in, as
+   plain_aggregates produces them) *)
+Theorem C10_smallaggr_qr_rows_ge_cols (bs cols count : nat) (id : list Z) :
+  1 <= bs -> 1 <= cols -> valid_ids count id -> (forall m, m < count -> 1 <= occ id (Z.of_nat m)) ->
+  let r := remove_small bs cols count id in
+  forall i, i < fst r -> cols <= length (members bs (expand_ids bs (snd r)) i).
+Proof. exact (remove_small_qr_guard bs cols count id). Qed.
+Print Assumptions C10_smallaggr_qr_rows_ge_cols.
+
+(* ... for the aggregates of the coarsening policies as modelled (plain aggregation on A or on the pointwise matrix, then
+   remove_small_aggregates, then the expansion of the ids): any block_size, any Scalar, any junk *)
+Theorem C10_smallaggr_pointwise_aggregates_guard (S : Scalar) (eps2 : S) (bs cols : nat) (A : crs S) (junk : vec S)
+        (count : nat) (id : list Z) (st : flags) :
+  1 <= cols ->
+  pointwise_aggregates eps2 bs cols A junk = AggOk count id st ->
+  forall i, i < count / bs -> cols <= length (members bs id i).
+Proof. exact (pointwise_aggregates_qr_guard eps2 bs cols A junk count id st). Qed.
+Print Assumptions C10_smallaggr_pointwise_aggregates_guard.
+
+(* the copy loop Bnew[i*cols*cols + kk] = qr.R(ii,jj) with checked reads of the d*cols cells of Bpart: Done when
+   cols <= d, OutOfBounds when d < cols *)
+Theorem C10_smallaggr_r_copy_done (S : Scalar) (cols d base : nat) (rl : list S) (pre mid post : marr S) :
+  cols <= d -> length rl = d * cols -> length pre = base -> length mid = cols * cols ->
+  r_copy_loop cols d (filled rl) base (pre ++ mid ++ post) = Done (pre ++ filled (r_values cols d rl) ++ post).
+Proof. exact (r_copy_done cols d base rl pre mid post). Qed.
+Print Assumptions C10_smallaggr_r_copy_done.
+
+Theorem C10_smallaggr_r_copy_out_of_bounds (S : Scalar) (cols d base : nat) (rl : list S) (bnew : marr S) :
+  0 < cols -> d < cols -> length rl = d * cols ->
+  r_copy_loop cols d (filled rl) base bnew = OutOfBounds.
+Proof. exact (r_copy_oob cols d base rl bnew). Qed.
+Print Assumptions C10_smallaggr_r_copy_out_of_bounds.
+
+(* together: behind remove_small_aggregates(min_aggregate = nullspace.cols) the copy loop of every block aggregate is
+   memory safe *)
+Theorem C10_smallaggr_r_copy_safe (S : Scalar) (bs cols count : nat) (id : list Z) :
+  1 <= bs -> 1 <= cols -> valid_ids count id -> (forall m, m < count -> 1 <= occ id (Z.of_nat m)) ->
+  let r := remove_small bs cols count id in
+  forall i, i < fst r ->
+  let d := length (members bs (expand_ids bs (snd r)) i) in
+  forall (rl : list S) (pre mid post : marr S),
+    length rl = d * cols -> length mid = cols * cols ->
+    r_copy_loop cols d (filled rl) (length pre) (pre ++ mid ++ post) = Done (pre ++ filled (r_values cols d rl) ++ post).
+Proof. exact (smallaggr_r_copy_safe bs cols count id). Qed.
+Print Assumptions C10_smallaggr_r_copy_safe.
+
+(* the variant `min_aggregate /= block_size; ... count[i] < min_aggregate` (threshold in nodes, rounded down) is refuted:
+   block_size 2, nullspace.cols 3, one aggregate of one node -- as coded: empty_level; variant: the aggregate survives, its
+   QR block is 2 x 3 and the copy loop is OutOfBounds *)
+Theorem C10_smallaggr_floor_variant_refuted (S : Scalar) :
+  exists (bs cols count : nat) (id : list Z),
+    1 <= bs /\ 1 <= cols /\ valid_ids count id /\ (forall m, m < count -> 1 <= occ id (Z.of_nat m)) /\
+    ll_remove_small RsCoded (length id) bs cols count (filled id) = Done RsEmptyLevel /\
+    exists count' id',
+      ll_remove_small RsFloor (length id) bs cols count (filled id) = Done (RsOk count' (filled id')) /\
+      exists i, i < count' /\
+        let d := length (members bs (expand_ids bs id') i) in
+        d < cols /\
+        forall (rl : list S) (base : nat) (bnew : marr S), length rl = d * cols ->
+          r_copy_loop cols d (filled rl) base bnew = OutOfBounds.
+Proof. exact remove_small_floor_variant_refuted. Qed.
+Print Assumptions C10_smallaggr_floor_variant_refuted.
+
+(* a witness that runs through the three loops of the variant (threshold 5/2 = 2): block_size 2, nullspace.cols 5, ids
+   [0;1;1;0;0]: as coded aggregate 1 (2 nodes, 4 unknowns < 5) is removed and aggregate 0 is renumbered; the variant keeps it *)
+Theorem C10_smallaggr_floor_variant_refuted_loops (S : Scalar) :
+  exists (bs cols count : nat) (id : list Z),
+    1 <= bs /\ 1 <= cols /\ valid_ids count id /\ (forall m, m < count -> 1 <= occ id (Z.of_nat m)) /\
+    ll_remove_small RsCoded (length id) bs cols count (filled id) = Done (RsOk 1 (filled [0; removed; removed; 0; 0]%Z)) /\
+    exists count' id',
+      ll_remove_small RsFloor (length id) bs cols count (filled id) = Done (RsOk count' (filled id')) /\
+      exists i, i < count' /\
+        let d := length (members bs (expand_ids bs id') i) in
+        d < cols /\
+        forall (rl : list S) (base : nat) (bnew : marr S), length rl = d * cols ->
+          r_copy_loop cols d (filled rl) base bnew = OutOfBounds.
+Proof. exact remove_small_floor_variant_refuted_loops. Qed.
+Print Assumptions C10_smallaggr_floor_variant_refuted_loops.
